@@ -200,9 +200,9 @@ def eq_keys(built: List[Any]) -> List[int]:
 def gen_value(rng: core.Rng, objs: List[dict], kind: str):
     """kind: name | size | a class name (an object of that class)"""
     if kind == "str":
-        return ["s", rng.choice(STRS)]
+        return ["s", rng.choice(STRS if rng.chance(0.15) else STRS[:2])]
     if kind == "int":
-        return ["i", rng.randint(1, 3)]
+        return ["i", rng.randint(1, 3 if rng.chance(0.15) else 2)]
     cands = [i for i, o in enumerate(objs) if issub(o["cls"], kind)]
     return ["o", rng.choice(cands)] if cands else ["o", 0]
 
@@ -498,7 +498,7 @@ def kinds(al, out=None, depth=1):
 
 # ------------------------------------------------------------------ cases
 def gen_cases(tier: str, seed: int) -> List[dict]:
-    n = 1500 if tier == "quick" else 20000
+    n = 3000 if tier == "quick" else 20000
     rng = core.Rng(seed).fork(11)
     out = []
     for i in range(n):
@@ -607,7 +607,7 @@ def run(tier: str, seed: int, replay=None) -> int:
             bump("unspecified(in_/match_all on a scalar attribute): impl vs model only")
             continue
         hit = [k for k in KF_CLASSES if k in cl and k in open_classes]
-        if not inf and hit and model is not None and iset == model:
+        if not inf and hit and (model is None or iset == model):
             for k in hit:
                 kf_seen[k] = kf_seen.get(k, 0) + 1
             bump("known-finding instances")
